@@ -42,6 +42,7 @@ type Solver struct {
 	timeout int // ms per query
 	log     io.Writer
 	dead    bool
+	closed  bool
 }
 
 func solverArgs(name string, timeoutMs int) (string, []string) {
@@ -88,9 +89,10 @@ func NewSolver(name string, timeoutMs int) (*Solver, error) {
 }
 
 func (s *Solver) Close() {
-	if s.dead {
+	if s.closed {
 		return
 	}
+	s.closed = true
 	s.dead = true
 	s.in.Close()
 	s.cmd.Process.Kill()
@@ -241,6 +243,9 @@ func (s *Solver) Check(pc []*Term, extra *Term, wantModel []*Term) (Verdict, map
 	}
 	s.stats.Queries++
 	s.stats.Time += time.Since(start)
+	if d := time.Since(start); d > 2*time.Second && os.Getenv("SYMGO_SLOW") != "" {
+		fmt.Fprintf(os.Stderr, "slow query %s: %v verdict=%v pc=%d\n", s.name, d, verdict, len(pc))
+	}
 	switch verdict {
 	case Sat:
 		s.stats.Sat++
